@@ -177,7 +177,9 @@ func (m *promptManager) handleGetPrompt(ctx context.Context, req *JSONRPCRequest
 	if !ok {
 		return errResp, nil
 	}
+	m.mu.RLock()
 	registeredPrompt, exists := m.prompts[name]
+	m.mu.RUnlock()
 	if !exists {
 		return newJSONRPCErrorResponse(
 			req.ID,
